@@ -380,7 +380,7 @@ func Check() *engine.Check {
 			"RWMutex is modelled without writer preference (superset of real behaviours)",
 			"at most 3 threads; preemption bound as stated",
 		},
-		Shards: func(string) int { return len(scenarios) },
+		Shards: func(string) int { return 16 },
 		Budget: func(tier string) time.Duration {
 			if tier == "thorough" {
 				return 25 * time.Minute
@@ -455,15 +455,11 @@ func run(c *engine.Ctx) {
 	}
 
 	for si := range scenarios {
-		if !c.Mine(si) {
-			continue
-		}
-
 		def := &scenarios[si]
 
 		for b := 0; b <= bound; b++ {
 			sc := &scen{def: def, cache: map[string]bool{}, outc: map[string]int64{}}
-			ex := &sched.Explorer{Scenario: sc, Bound: b, Stop: c.Expired}
+			ex := &sched.Explorer{Scenario: sc, Bound: b, Stop: c.Expired, Shard: c.Shard, NShards: c.NShards}
 			ex.Explore()
 
 			c.Count(fmt.Sprintf("%s_schedules_bound_%d", def.Name, b), ex.Stats.Executions)
@@ -499,7 +495,7 @@ func run(c *engine.Ctx) {
 			}
 		}
 
-		if c.WantSample() {
+		if c.WantSample() && c.Shard == 0 {
 			c.Sample(map[string]any{"scenario": def})
 		}
 	}
